@@ -585,7 +585,16 @@ func (f *Field) applyOptions(opt FieldOptions) error {
 		f.options.Min = opt.Min
 		f.options.Max = opt.Max
 		f.options.Base = opt.Base
-		f.options.BitDepth = opt.BitDepth
+		// A bit depth of 0 in a saved meta file means "written before bases
+		// existed" to loadMeta, which then takes Min as the base. A new field
+		// must therefore never be saved with depth 0, or a field that only
+		// holds zeros (or nothing) changes its base on the next restart and
+		// every stored 0 reads back as Min.
+		bitDepth := opt.BitDepth
+		if bitDepth == 0 {
+			bitDepth = 1
+		}
+		f.options.BitDepth = bitDepth
 		f.options.TimeQuantum = ""
 		f.options.Keys = opt.Keys
 
@@ -596,7 +605,7 @@ func (f *Field) applyOptions(opt FieldOptions) error {
 			Min:      opt.Min,
 			Max:      opt.Max,
 			Base:     opt.Base,
-			BitDepth: opt.BitDepth,
+			BitDepth: bitDepth,
 		}
 		// Validate bsiGroup.
 		if err := bsig.validate(); err != nil {
